@@ -12,6 +12,11 @@ package checks
 // pillar of the slot containing its timestamp, and every slot's producer must be an active pillar.
 // (2) Momentum mutants (every field, content edits, re-timing, four attacker models) are offered to a
 // real follower; an accepted mutant must satisfy an independent validity predicate.
+// (3) conc:* / race:conc:* cases: ONE node's consensus object is asked by 8–16 goroutines at once while its
+// election cache is cold (consensus cache deleted, or the node is syncing and the inserting goroutine runs the
+// verifier, the election pre-compute hook and the points listener): GetMomentumProducer, VerifyMomentumProducer
+// on real and re-timed momentums of the chain, GetPillarWeights and EpochStats of the consensus API. Every answer
+// is compared with the same reference election; after a restart on the persisted cache everything is compared again.
 
 import (
 	"bytes"
@@ -21,7 +26,10 @@ import (
 	"math/big"
 	"math/rand"
 	"os"
+	"runtime"
 	"sort"
+	"strings"
+	"sync/atomic"
 	"time"
 
 	"golang.org/x/crypto/sha3"
@@ -43,16 +51,26 @@ func init() {
 		Level: "exploration",
 		Rule: "each case generates a consistent genesis with 1/2/8/29/30/31/45 pillars (random or equal weights), runs a seeded history of 3–6 ticks with skipped slots and moving delegations on a real producing node, " +
 			"and (a) compares the schedule of every settled tick on 5 kinds of nodes with an independent reference election, (b) offers ~150 momentum mutants under 4 attacker models to a real follower; " +
+			"conc:* cases (and the smaller race:conc:* cases under the race detector) build a chain of 10–16 ticks with 3/8/29/30/31/45 genesis pillars (+1 registered mid-run), then let 8–16 goroutines ask ONE node with a deleted consensus cache " +
+			"for the producers of PRNG-chosen slots through every public entry point that leads to an election (GetMomentumProducer, VerifyMomentumProducer on real and re-timed momentums, GetPillarWeights, EpochStats), several cold rounds, " +
+			"each followed by a restart on the persisted cache and a sequential comparison; a second node syncs the chain (after a cold restart part-way) while readers ask for ticks settled under its current frontier; " +
 			"distinct_nontrivial counts distinct (pillar count, weight mode, node kind) schedule comparisons and distinct (mutated field, attacker model, outcome) triples",
 		Cases:            c05Cases,
 		Run:              c05Run,
 		MinDistinct:      20,
 		DeathIsViolation: true,
-		DeathSig:         func(caseID, tail string) string { return "node-crash " + topRepoFrame(tail) },
+		DeathSig: func(caseID, tail string) string {
+			if strings.HasPrefix(caseID, "race:") && !strings.Contains(tail, "panic:") && !strings.Contains(tail, "fatal error:") {
+				return "race-child-exit-without-panic" // the race-detector build exits non-zero at the end when it has reported a data race
+			}
+			return "node-crash " + topRepoFrame(tail)
+		},
 		Assumptions: []string{
 			"the reference election is a re-implementation of the published algorithm (math/rand permutations seeded by the proof momentum's height) over raw ledger data",
 			"schedule equality is required only for ticks whose proof momentum can no longer change (settled ticks)",
 			"'not in the future' is probed with timestamps years ahead so that the wall clock never decides",
+			"a node that is still syncing is only judged on ticks whose proof time is not later than the frontier the reader saw before it asked (the frontier only grows during that phase)",
+			"GetPillarWeights of a momentum must be the raw delegation weights at the proof momentum of the previous tick; EpochStats' expected/produced counts must equal the reference schedule's slot counts and the chain's signer counts over the started ticks (weights of epoch statistics are not judged)",
 		},
 	})
 }
@@ -67,6 +85,16 @@ func c05Cases(tier string, seed int64) []string {
 	var l []string
 	for i := 0; i < n; i++ {
 		l = append(l, fmt.Sprintf("world:%d", i))
+	}
+	nc, nr := 6, 2 // every pillar count of c05ConcPillarCounts once; two of them under the race detector
+	if tier == "thorough" {
+		nc, nr = 72, 6
+	}
+	for i := 0; i < nc; i++ {
+		l = append(l, fmt.Sprintf("conc:%d", i))
+	}
+	for i := 0; i < nr; i++ {
+		l = append(l, fmt.Sprintf("race:conc:%d", i))
 	}
 	return l
 }
@@ -270,6 +298,15 @@ func c05Address(pub []byte) types.Address {
 // ---- the check ---------------------------------------------------------------
 
 func c05Run(c *fw.C, caseID string) {
+	var ci int
+	if n, _ := fmt.Sscanf(caseID, "race:conc:%d", &ci); n == 1 {
+		c05Conc(c, caseID, ci, true)
+		return
+	}
+	if n, _ := fmt.Sscanf(caseID, "conc:%d", &ci); n == 1 {
+		c05Conc(c, caseID, ci, false)
+		return
+	}
 	r := c.Rand(caseID)
 	base := c.ScratchDir("c05")
 	defer os.RemoveAll(base)
@@ -770,4 +807,539 @@ func c05Valid(m *nom.Momentum, parent *nom.Momentum, honest *nom.Momentum, ref *
 		}
 	}
 	return ""
+}
+
+// ---- (3) one node, many concurrent askers, cold election cache -------------------------------------
+
+var c05ConcPillarCounts = []int{8, 45, 29, 31, 3, 30}
+
+// c05ConcWorld: a finished chain on a producing node plus everything the reference says about it (read-only
+// once built, so that reader goroutines may share it).
+type c05ConcWorld struct {
+	nPillars int
+	mode     string
+	genesis  int64
+	chain    []*nom.Momentum // index 0 = height 1 (never handed to the node under test: readers use raw)
+	raw      [][]byte        // serialized momentums, same index
+	settled  []uint64
+	sched    map[uint64][]c05Pillar         // tick → reference producers
+	weights  map[uint64]map[string]*big.Int // tick → reference weights (name → weight) at the tick's proof momentum
+	proofH   map[uint64]uint64              // tick → height of the proof momentum
+	expected map[string]uint64              // epoch 0: slots per pillar name over the started ticks
+	produced map[string]uint64              // epoch 0: momentums per pillar name
+}
+
+func (w *c05ConcWorld) proofTime(tick uint64) int64 {
+	if tick < 2 {
+		return w.genesis + 1
+	}
+	return w.genesis + int64(tick-1)*300
+}
+
+// maxSettled: index into w.settled of the last tick whose proof momentum is final under a frontier with timestamp fts.
+func (w *c05ConcWorld) maxSettled(fts int64) int {
+	k := -1
+	for i, t := range w.settled {
+		if w.proofTime(t) <= fts {
+			k = i
+		}
+	}
+	return k
+}
+
+type c05Finding struct {
+	sig    string
+	detail map[string]interface{}
+}
+
+// c05Reader is one asker (a goroutine, or the sequential pass after a restart). It owns its PRNG and counters.
+type c05Reader struct {
+	w       *c05ConcWorld
+	n       *simnet.Node
+	kind    string
+	r       *rand.Rand
+	asked   map[string]int
+	overlap int // queries during which the node's frontier moved
+	finding *c05Finding
+}
+
+func (q *c05Reader) fail(sig string, detail map[string]interface{}) bool {
+	detail["pillars_in_genesis"] = q.w.nPillars
+	detail["weights"] = q.w.mode
+	q.finding = &c05Finding{sig + " " + q.kind, detail}
+	return false
+}
+
+func (q *c05Reader) askProducer(tick uint64, slot int) bool {
+	prods := q.w.sched[tick]
+	got, err := q.n.Cons.GetMomentumProducer(time.Unix(q.w.genesis+int64(tick)*300+int64(slot)*10, 0))
+	q.asked["GetMomentumProducer"]++
+	if err != nil || got == nil {
+		return q.fail("schedule-unavailable", map[string]interface{}{"tick": tick, "slot": slot, "err": fmt.Sprint(err)})
+	}
+	if *got != prods[slot].Producing {
+		return q.fail("schedule-differs-from-reference", map[string]interface{}{"tick": tick, "slot": slot, "node_says": got.String(),
+			"reference": prods[slot].Producing.String(), "reference_name": prods[slot].Name, "proof_height": q.w.proofH[tick]})
+	}
+	return true
+}
+
+// askVerify offers the momentum at chain index i (optionally moved to another slot) to VerifyMomentumProducer.
+func (q *c05Reader) askVerify(i int, retime bool, tick uint64, slot int) bool {
+	m, err := nom.DeserializeMomentum(q.w.raw[i])
+	if err != nil {
+		return true
+	}
+	if retime {
+		m.TimestampUnix = uint64(q.w.genesis + int64(tick)*300 + int64(slot)*10)
+		data, _ := m.Serialize()
+		m, _ = nom.DeserializeMomentum(data)
+	} else {
+		tick = uint64((int64(m.TimestampUnix) - q.w.genesis) / 300)
+		slot = int((int64(m.TimestampUnix)-q.w.genesis)%300) / 10
+	}
+	want := c05Address(m.PublicKey) == q.w.sched[tick][slot].Producing
+	ok, err := q.n.Cons.VerifyMomentumProducer(m)
+	entry := "VerifyMomentumProducer(real momentum)"
+	if retime {
+		entry = "VerifyMomentumProducer(re-timed momentum)"
+	}
+	q.asked[entry]++
+	if err != nil {
+		return q.fail("schedule-unavailable", map[string]interface{}{"tick": tick, "slot": slot, "err": err.Error(), "entry": "VerifyMomentumProducer"})
+	}
+	if ok != want {
+		return q.fail("verify-producer-differs-from-reference", map[string]interface{}{"tick": tick, "slot": slot, "momentum_height": m.Height, "re_timed": retime,
+			"signer": c05Address(m.PublicKey).String(), "node_says_elected": ok, "reference_elected": q.w.sched[tick][slot].Producing.String(), "proof_height": q.w.proofH[tick]})
+	}
+	return true
+}
+
+// askWeights: consensus API fixed at the momentum with chain index i — the weights of the tick before that momentum's.
+func (q *c05Reader) askWeights(i int) bool {
+	m := q.w.chain[i]
+	tick := uint64((int64(m.TimestampUnix) - q.w.genesis) / 300)
+	if tick > 0 {
+		tick--
+	}
+	got, err := q.n.Cons.FixedPillarReader(types.HashHeight{Hash: m.Hash, Height: m.Height}).GetPillarWeights()
+	q.asked["GetPillarWeights"]++
+	if err != nil {
+		return q.fail("pillar-weights-unavailable", map[string]interface{}{"tick": tick, "err": err.Error()})
+	}
+	want := q.w.weights[tick]
+	bad := ""
+	if len(got) != len(want) {
+		bad = fmt.Sprintf("%d pillars instead of %d", len(got), len(want))
+	}
+	for name, wv := range want {
+		if gv, ok := got[name]; !ok || gv == nil || gv.Cmp(wv) != 0 {
+			bad = fmt.Sprintf("pillar %s: node says %v, reference %v", name, gv, wv)
+		}
+	}
+	if bad != "" {
+		return q.fail("pillar-weights-differ-from-reference", map[string]interface{}{"tick": tick, "momentum_height": m.Height, "difference": bad})
+	}
+	return true
+}
+
+// askEpochStats: epoch 0 of the consensus API at the frontier (only on a node whose ledger is complete and at rest).
+func (q *c05Reader) askEpochStats() bool {
+	st, err := q.n.Cons.FrontierPillarReader().EpochStats(0)
+	q.asked["EpochStats"]++
+	if err != nil || st == nil {
+		return q.fail("epoch-stats-unavailable", map[string]interface{}{"err": fmt.Sprint(err)})
+	}
+	bad := ""
+	for name, p := range st.Pillars {
+		if p.ExceptedBlockNum != q.w.expected[name] {
+			bad = fmt.Sprintf("pillar %q: %d expected momentums, the reference schedule gives it %d slots", name, p.ExceptedBlockNum, q.w.expected[name])
+		} else if p.BlockNum != q.w.produced[name] {
+			bad = fmt.Sprintf("pillar %q: %d produced momentums, the chain has %d signed by it", name, p.BlockNum, q.w.produced[name])
+		}
+	}
+	for name, e := range q.w.expected {
+		if _, ok := st.Pillars[name]; !ok && e > 0 {
+			bad = fmt.Sprintf("pillar %q missing (the reference schedule gives it %d slots)", name, e)
+		}
+	}
+	if bad == "" && st.TotalBlocks != uint64(len(q.w.chain)-1) {
+		bad = fmt.Sprintf("%d total momentums, the chain has %d after genesis", st.TotalBlocks, len(q.w.chain)-1)
+	}
+	if bad != "" {
+		return q.fail("epoch-stats-differ-from-reference", map[string]interface{}{"difference": bad})
+	}
+	return true
+}
+
+// one PRNG-chosen question; topTick/topIdx bound what may be asked (everything on a node at rest).
+func (q *c05Reader) askRandom(maxSettledIdx, maxChainIdx int, atRest bool) bool {
+	w := q.w
+	tick := w.settled[q.r.Intn(maxSettledIdx+1)]
+	if !atRest && q.r.Intn(5) < 3 && maxSettledIdx > 0 {
+		tick = w.settled[maxSettledIdx-q.r.Intn(2)] // a syncing node: mostly the ticks that have just become settled
+	}
+	slot := q.r.Intn(30)
+	switch x := q.r.Intn(20); {
+	case x < 10:
+		return q.askProducer(tick, slot)
+	case x < 13:
+		if maxChainIdx < 1 {
+			return q.askProducer(tick, slot)
+		}
+		return q.askVerify(1+q.r.Intn(maxChainIdx), false, 0, 0)
+	case x < 16:
+		if maxChainIdx < 1 {
+			return q.askProducer(tick, slot)
+		}
+		return q.askVerify(1+q.r.Intn(maxChainIdx), true, tick, slot)
+	case x < 19 || !atRest:
+		return q.askWeights(q.r.Intn(maxChainIdx + 1))
+	default:
+		return q.askEpochStats()
+	}
+}
+
+func c05NewReader(w *c05ConcWorld, n *simnet.Node, kind string, r *rand.Rand) *c05Reader {
+	return &c05Reader{w: w, n: n, kind: kind, r: r, asked: map[string]int{}}
+}
+
+// c05Merge folds the readers' counters into the evidence and reports the first finding of every signature.
+func c05Merge(c *fw.C, readers []*c05Reader) bool {
+	ok := true
+	seen := map[string]bool{}
+	for _, q := range readers {
+		for entry, n := range q.asked {
+			c.Eval(n)
+			c.Count("asked["+q.kind+"] "+entry, n)
+		}
+		if q.overlap > 0 {
+			c.Count("answers_during_which_the_syncing_nodes_frontier_moved", q.overlap)
+		}
+		if q.finding != nil {
+			ok = false
+			if !seen[q.finding.sig] {
+				seen[q.finding.sig] = true
+				c.Violation(q.finding.sig, q.finding.detail)
+			}
+		}
+	}
+	return ok
+}
+
+// c05Sequential: one asker goes through every slot of every settled tick, every momentum and the statistics.
+func c05Sequential(c *fw.C, w *c05ConcWorld, n *simnet.Node, kind string) bool {
+	q := c05NewReader(w, n, kind, nil)
+	func() {
+		for _, t := range w.settled {
+			for s := 0; s < 30; s++ {
+				if !q.askProducer(t, s) {
+					return
+				}
+			}
+		}
+		for i := 1; i < len(w.chain); i++ {
+			if !q.askVerify(i, false, 0, 0) {
+				return
+			}
+		}
+		for i := 0; i < len(w.chain); i += 7 {
+			if !q.askWeights(i) {
+				return
+			}
+		}
+		q.askEpochStats()
+	}()
+	if !c05Merge(c, []*c05Reader{q}) {
+		return false
+	}
+	c.Distinct(fmt.Sprintf("schedule/pillars=%d/%s/%s", w.nPillars, w.mode, kind))
+	return true
+}
+
+func c05Conc(c *fw.C, caseID string, idx int, small bool) {
+	r := c.Rand(caseID)
+	base := c.ScratchDir("c05conc")
+	defer os.RemoveAll(base)
+	nPillars := c05ConcPillarCounts[idx%len(c05ConcPillarCounts)]
+	if small {
+		nPillars = []int{8, 45, 31, 29, 30, 3}[idx%6]
+	}
+	equal := (idx/len(c05ConcPillarCounts))%3 == 1
+	world, err := simnet.MakeWorld(rand.New(rand.NewSource(r.Int63())), nPillars, 6, equal)
+	if err != nil {
+		c.Violation("harness-genesis-inconsistent", err.Error())
+		return
+	}
+	w := &c05ConcWorld{nPillars: nPillars, mode: "random-weights", genesis: world.Config.GenesisTimestampSec, sched: map[uint64][]c05Pillar{},
+		weights: map[uint64]map[string]*big.Int{}, proofH: map[uint64]uint64{}, expected: map[string]uint64{}, produced: map[string]uint64{}}
+	if equal {
+		w.mode = "equal-weights"
+	}
+	extraKey, _ := wallet.DeriveWithIndex(uint32(7500+idx), []byte("0123456789abcdef"))
+	P := simnet.Open("P", base+"/P", world.NewGenesis(), append(append([]*wallet.KeyPair{}, world.PillarKeys...), extraKey))
+	defer P.Stop()
+	wl := simnet.NewWorkload(rand.New(rand.NewSource(r.Int63())), P)
+	wl.Users, wl.PillarNames, wl.SporkKey = world.Users, world.PillarNames, world.SporkKey
+	ref := &c05Ref{genesis: w.genesis, snapshots: map[types.Hash]*c05Snapshot{}}
+	snap := func() bool {
+		s, err := c05TakeSnapshot(P)
+		if err != nil {
+			c.Violation("snapshot-failed", err.Error())
+			return false
+		}
+		f := P.Frontier()
+		c.SetAdd("active_pillar_counts_seen_at_proof_candidates", fmt.Sprint(len(s.Pillars)))
+		ref.snapshots[f.Hash] = s
+		ref.chain = append(ref.chain, f)
+		return true
+	}
+	if !snap() {
+		return
+	}
+	// many short ticks: most slots are skipped (never a whole tick), delegations and balances move, a pillar registers
+	ticks := 10 + r.Intn(7)
+	goroutines, perReader, rounds, bursts, syncCap := 8+r.Intn(9), 40, 3, 6, 1500
+	if small {
+		ticks, goroutines, perReader, rounds, bursts, syncCap = 5+r.Intn(2), 8, 25, 2, 2, 400
+	}
+	rich := world.Users[0]
+	for i := 0; int64(P.Frontier().TimestampUnix) < w.genesis+int64(ticks)*300; i++ {
+		for k := r.Intn(3); k > 0; k-- {
+			u := world.Users[r.Intn(len(world.Users))]
+			switch r.Intn(3) {
+			case 0:
+				_, _ = P.Send(u, types.PillarContract, types.ZnnTokenStandard, big.NewInt(0), definition.ABIPillars.PackMethodPanic(definition.DelegateMethodName, world.PillarNames[r.Intn(nPillars)]))
+			case 1:
+				_, _ = P.Send(u, types.PillarContract, types.ZnnTokenStandard, big.NewInt(0), definition.ABIPillars.PackMethodPanic(definition.UndelegateMethodName))
+			default:
+				wl.One()
+			}
+		}
+		switch i {
+		case 6:
+			cost := new(big.Int).Add(constants.PillarQsrStakeBaseAmount, new(big.Int).Mul(constants.PillarQsrStakeIncreaseAmount, big.NewInt(int64(nPillars))))
+			_, _ = P.Send(rich, types.PillarContract, types.QsrTokenStandard, cost, definition.ABIPillars.PackMethodPanic(definition.DepositQsrMethodName))
+		case 10:
+			if _, err := P.Send(rich, types.PillarContract, types.ZnnTokenStandard, new(big.Int).Set(constants.PillarStakeAmount),
+				definition.ABIPillars.PackMethodPanic(definition.RegisterMethodName, "pillar-registered-mid-run", extraKey.Address, rich.Address, uint8(0), uint8(100))); err == nil {
+				c.Count("pillar_registrations_submitted_mid_run", 1)
+			}
+		case 14:
+			_, _ = P.Send(rich, types.PillarContract, types.ZnnTokenStandard, big.NewInt(0), definition.ABIPillars.PackMethodPanic(definition.DelegateMethodName, "pillar-registered-mid-run"))
+		}
+		skip := 0
+		if r.Intn(3) != 0 {
+			skip = 1 + r.Intn(8)
+		}
+		if _, err := P.Produce(skip); err != nil {
+			c.Violation("producer-cannot-produce", map[string]interface{}{"pillars": nPillars, "height": P.Height() + 1, "err": err.Error()})
+			return
+		}
+		if !snap() {
+			return
+		}
+	}
+	// what the reference says about this chain
+	w.chain = ref.chain
+	w.settled = ref.settledTicks()
+	for _, t := range w.settled {
+		proof := ref.proofFor(t)
+		prods := ref.producers(t)
+		if proof == nil || len(prods) != 30 {
+			c.Violation("reference-election-unavailable", map[string]interface{}{"tick": t})
+			return
+		}
+		w.sched[t], w.proofH[t] = prods, proof.Height
+		w.weights[t] = map[string]*big.Int{}
+		for _, p := range ref.snapshots[proof.Hash].Pillars {
+			w.weights[t][p.Name] = p.Weight
+		}
+		c.SetAdd("concurrent_cases_active_pillars_at_proof_momentums", fmt.Sprint(len(w.weights[t])))
+	}
+	lastTick := uint64((int64(P.Frontier().TimestampUnix) - w.genesis) / 300)
+	for t := uint64(0); t <= lastTick; t++ {
+		for _, p := range w.sched[t] {
+			w.expected[p.Name]++
+		}
+	}
+	for i, m := range ref.chain {
+		data, err := m.Serialize()
+		if err != nil {
+			c.Inconclusive("cannot serialize a momentum: " + err.Error())
+			return
+		}
+		w.raw = append(w.raw, data)
+		if i == 0 {
+			continue
+		}
+		tick := uint64((int64(m.TimestampUnix) - w.genesis) / 300)
+		slot := int((int64(m.TimestampUnix)-w.genesis)%300) / 10
+		c.Eval(1)
+		if c05Address(m.PublicKey) != w.sched[tick][slot].Producing {
+			c.Violation("accepted-momentum-not-from-elected-pillar", map[string]interface{}{"height": m.Height, "tick": tick, "slot": slot, "signer": c05Address(m.PublicKey).String(),
+				"reference_elected": w.sched[tick][slot].Producing.String(), "pillars": nPillars, "weights": w.mode})
+			return
+		}
+		w.produced[w.sched[tick][slot].Name]++
+	}
+	c.SetAdd("concurrent_cases_ticks_in_chain", fmt.Sprint(len(w.settled)))
+	top := len(w.chain) - 1 // chain index of the frontier
+
+	// (a) a node with the complete ledger and NO consensus cache, asked by many goroutines at once; several cold rounds
+	F := simnet.Open("F", base+"/F", world.NewGenesis(), nil)
+	defer F.Stop()
+	if err := F.SyncFrom(P, 64); err != nil {
+		c.Violation("follower-refuses-producers-momentum", map[string]interface{}{"err": err.Error(), "pillars": nPillars, "weights": w.mode})
+		return
+	}
+	for round := 0; round < rounds; round++ {
+		// several cold bursts (everybody asks a few questions about ticks of its own PRNG order right after the cache
+		// was deleted); after the last one the readers go on with a longer PRNG mix of questions
+		for burst := 0; burst < bursts; burst++ {
+			F.RestartFresh()
+			readers := make([]*c05Reader, goroutines)
+			start := make(chan struct{})
+			done := make(chan struct{}, goroutines)
+			more := 0
+			if burst == bursts-1 {
+				more = perReader
+			}
+			for g := range readers {
+				q := c05NewReader(w, F, "concurrent-cold-cache", c.Rand(fmt.Sprintf("%s/cold/%d/%d/%d", caseID, round, burst, g)))
+				readers[g] = q
+				order := q.r.Perm(len(w.settled))
+				if len(order) > 4 {
+					order = order[:4]
+				}
+				statsFirst := g == 0 && burst%2 == 1 // the statistics walk through every tick's election on their own
+				go func() {
+					defer func() { done <- struct{}{} }()
+					<-start
+					if statsFirst && !q.askEpochStats() {
+						return
+					}
+					for _, ti := range order {
+						tick, slot := w.settled[ti], q.r.Intn(30)
+						if q.r.Intn(3) == 0 {
+							if !q.askVerify(1+q.r.Intn(top), true, tick, slot) {
+								return
+							}
+						} else if !q.askProducer(tick, slot) {
+							return
+						}
+					}
+					for k := 0; k < more; k++ {
+						if !q.askRandom(len(w.settled)-1, top, true) {
+							return
+						}
+					}
+				}()
+			}
+			close(start)
+			for range readers {
+				<-done
+			}
+			c.Count("cold_cache_bursts", 1)
+			c.Count("reader_goroutines_on_cold_caches", goroutines)
+			c.SetAdd("reader_goroutines_per_node", fmt.Sprint(goroutines))
+			if !c05Merge(c, readers) {
+				return
+			}
+		}
+		c.Distinct(fmt.Sprintf("schedule/pillars=%d/%s/concurrent-cold-cache", nPillars, w.mode))
+		// what the concurrent rounds left in the persistent cache
+		F.Restart()
+		if !c05Sequential(c, w, F, "restart-after-concurrent-cold-cache") {
+			return
+		}
+	}
+
+	// (b) a node that syncs the chain — after a restart without consensus cache part-way — while readers ask for every
+	// tick that is settled under the frontier they have just seen
+	G := simnet.Open("G", base+"/G", world.NewGenesis(), nil)
+	defer G.Stop()
+	all := simnet.CloneBatch(P.Range(2, P.Height()))
+	h0 := r.Intn(len(all) * 2 / 3)
+	if h0 > 0 {
+		if _, err := G.InsertChain(all[:h0]); err != nil {
+			c.Violation("follower-refuses-producers-momentum", map[string]interface{}{"err": err.Error(), "pillars": nPillars, "weights": w.mode})
+			return
+		}
+		G.RestartFresh()
+	}
+	var batches [][]*nom.DetailedMomentum
+	for rest := all[h0:]; len(rest) > 0; {
+		k := 1 + r.Intn(24)
+		if k > len(rest) {
+			k = len(rest)
+		}
+		batches = append(batches, rest[:k])
+		rest = rest[k:]
+	}
+	var syncDone atomic.Bool
+	var syncErr error
+	syncAt := 0
+	nReaders := goroutines - 1
+	readers := make([]*c05Reader, nReaders)
+	start := make(chan struct{})
+	done := make(chan struct{}, goroutines)
+	go func() {
+		defer func() { syncDone.Store(true); done <- struct{}{} }()
+		<-start
+		for _, b := range batches {
+			if i, err := G.InsertChain(b); err != nil {
+				syncErr, syncAt = err, int(b[0].Momentum.Height)+i
+				return
+			}
+		}
+	}()
+	for g := range readers {
+		q := c05NewReader(w, G, "concurrent-readers-while-syncing", c.Rand(fmt.Sprintf("%s/sync/%d", caseID, g)))
+		readers[g] = q
+		go func() {
+			defer func() { done <- struct{}{} }()
+			<-start
+			for k := 0; k < syncCap && !syncDone.Load(); {
+				f := G.Frontier()
+				ms := w.maxSettled(int64(f.TimestampUnix))
+				if ms < 0 {
+					runtime.Gosched()
+					continue
+				}
+				k++
+				if !q.askRandom(ms, int(f.Height)-1, false) {
+					return
+				}
+				if G.Height() != f.Height {
+					q.overlap++
+				}
+				runtime.Gosched()
+			}
+		}()
+	}
+	close(start)
+	for i := 0; i < nReaders+1; i++ {
+		<-done
+	}
+	c.Count("nodes_synced_under_concurrent_readers", 1)
+	if !c05Merge(c, readers) {
+		return
+	}
+	if syncErr != nil {
+		c.Violation("follower-refuses-producers-momentum while-readers-ask", map[string]interface{}{"err": syncErr.Error(), "height": syncAt, "cold_restart_at_height": h0 + 1, "pillars": nPillars, "weights": w.mode})
+		return
+	}
+	c.Distinct(fmt.Sprintf("schedule/pillars=%d/%s/concurrent-readers-while-syncing", nPillars, w.mode))
+	if !c05Sequential(c, w, G, "synced-under-concurrent-readers") {
+		return
+	}
+	G.Restart()
+	if !c05Sequential(c, w, G, "restart-after-concurrent-sync") {
+		return
+	}
+	if idx < 2 {
+		c.Sample(map[string]interface{}{"case": caseID, "pillars_in_genesis": nPillars, "weights": w.mode, "momentums": len(w.chain), "settled_ticks": len(w.settled),
+			"reader_goroutines": goroutines, "cold_rounds": rounds, "sync_cold_restart_at_height": h0 + 1})
+	}
 }
